@@ -19,13 +19,9 @@ ID = "C18"
 LEVEL = "model_checking"
 MIN_OUTCOMES = 2
 MANIFEST = {
-    "text": "Complete product of the stated abstract-configuration dimensions, each point rendered in six config syntaxes (setup.cfg and bumpver.toml also with CRLF line endings) and read by "
-    "the real loader: all Config results must be identical in every field the property names (versions, pattern, messages, scope, "
-    "hooks, commit/tag/push, file/pattern pairs, acceptance) and equal to the abstract configuration; the config file's own entry is "
-    "judged by function (it must match exactly the current_version line); CLI `show`/`update --dry` agree on a core subset.",
-    "note": "TOML features beyond plain tables/strings/arrays and mixed quoting of the two version keys inside one INI file are outside "
-    "the space; values not expressible in INI (leading blank, #/; at line start) are excluded and counted",
-    "technique": "exhaustive enumeration of a bounded configuration space, differential oracle across six renderings on the real loader",
+    'text': "Complete product of the stated abstract-configuration dimensions, each point rendered in six config syntaxes (setup.cfg and bumpver.toml also with CRLF line endings, with blank/comment lines between patterns and keys, and among other tools' sections; pyproject.toml also with the README's top-level [bumpver] table) and read by the real loader: all Config results must be identical in every field the property names (versions, pattern, messages, scope, hooks, commit/tag/push, file/pattern pairs, acceptance) and equal to the abstract configuration; the config file's own entry is judged by function (it must match exactly the current_version line); CLI `show`/`update --dry` agree on a core subset.",
+    'note': 'TOML features beyond plain tables/strings/arrays and mixed quoting of the two version keys inside one INI file are outside the space; values not expressible in INI (leading blank, #/; at line start) are excluded and counted',
+    'technique': 'exhaustive enumeration of a bounded configuration space, differential oracle across six renderings on the real loader',
 }
 RULE = (
     "one evaluation = one config file parsed by the real loader; a case = one abstract configuration in 6 renderings; distinct "
